@@ -78,7 +78,14 @@ pub struct Shared {
     fixed: Option<Vec<u16>>,
     pub stats: Stats,
     pub divergence: Option<String>,
+    /// how often an execution did not follow its replayed prefix (the code under test made a choice the scheduler
+    /// does not own, e.g. iterated over a randomly seeded hash map).  The first occurrence is reported (machinery,
+    /// never a verdict); the search drops the stale suffix and goes on, so that a violation which IS reachable can
+    /// still be exhibited; after `MAX_DIVERGENCES` the job stops.
+    diverged: u32,
 }
+
+const MAX_DIVERGENCES: u32 = 64;
 
 impl Shared {
     pub fn choices(&self) -> Vec<u16> {
@@ -154,14 +161,24 @@ impl Shared {
         if self.cursor < self.stack.len() {
             let f = &self.stack[self.cursor];
             if f.n as usize != n || f.sig != sig || f.preemptible != preemptible {
-                self.divergence = Some(format!(
-                    "divergence at choice point {}: recorded n={} sig={:x} pre={}, now n={} sig={:x} pre={}",
-                    self.cursor, f.n, f.sig, f.preemptible, n, sig, preemptible
-                ));
-                self.stop = true;
-                return None;
+                if self.divergence.is_none() {
+                    self.divergence = Some(format!(
+                        "divergence at choice point {}: recorded n={} sig={:x} pre={}, now n={} sig={:x} pre={}",
+                        self.cursor, f.n, f.sig, f.preemptible, n, sig, preemptible
+                    ));
+                }
+                self.diverged += 1;
+                if self.diverged > MAX_DIVERGENCES {
+                    self.stop = true;
+                    return None;
+                }
+                // drop the stale suffix and continue this execution with default choices
+                self.stack.truncate(self.cursor);
+                self.stack.push(Frame { chosen: 0, n: n as u16, cost_before: self.cur_cost, preemptible, sig });
+                c = 0;
+            } else {
+                c = f.chosen as usize;
             }
-            c = f.chosen as usize;
         } else {
             self.stack.push(Frame {
                 chosen: 0,
@@ -207,13 +224,14 @@ impl Shared {
             fixed: cfg.fixed.clone(),
             stats: Stats::default(),
             divergence: None,
+            diverged: 0,
         }
     }
 
     /// prepare the next execution of this job; false = job exhausted
     fn advance(&mut self) -> bool {
         let s = self;
-        if s.stop || s.divergence.is_some() {
+        if s.stop || (s.divergence.is_some() && (s.fixed.is_some() || s.diverged > MAX_DIVERGENCES)) {
             return false;
         }
         if !s.started {
@@ -224,12 +242,18 @@ impl Shared {
             }
             // the previous execution must have consumed its whole prefix
             if s.cursor < s.stack.len() {
-                s.divergence = Some(format!(
-                    "execution ended after {} choice points but the replayed prefix has {}",
-                    s.cursor,
-                    s.stack.len()
-                ));
-                return false;
+                if s.divergence.is_none() {
+                    s.divergence = Some(format!(
+                        "execution ended after {} choice points but the replayed prefix has {}",
+                        s.cursor,
+                        s.stack.len()
+                    ));
+                }
+                s.diverged += 1;
+                if s.diverged > MAX_DIVERGENCES {
+                    return false;
+                }
+                s.stack.truncate(s.cursor);
             }
             // backtrack
             loop {
